@@ -156,6 +156,12 @@ func (s *Store) Delete(bid bpv7.BundleID) error {
 			"bundle": bid,
 		}).Info("Store deletes BundleItem")
 
+		// The record goes first. Being stopped afterwards leaves orphaned files at worst. The other way round, a
+		// record would remain whose files are gone: it is still found, e.g., as pending, but cannot be loaded.
+		if err := s.bh.Delete(bi.Id, BundleItem{}); err != nil {
+			return err
+		}
+
 		for _, bp := range bi.Parts {
 			if err := bp.deleteBundle(); err != nil {
 				log.WithFields(log.Fields{
@@ -165,8 +171,6 @@ func (s *Store) Delete(bid bpv7.BundleID) error {
 				}).Warn("Failed to delete BundlePart")
 			}
 		}
-
-		return s.bh.Delete(bi.Id, BundleItem{})
 	}
 
 	return nil
